@@ -41,7 +41,8 @@ inductive Park where
   | gCleanup (slot : Nat)
   | gRelease (h : Nat) (c : Cont)
   | gCount | gKeys
-  | gExpire
+  /-- the scan of an expiry call; the cut-off was computed when the clock was read, before the park -/
+  | gExpire (cutoff : Option Nat)
   | done
 deriving Repr
 
@@ -129,7 +130,7 @@ def advance (s : State) (t : Nat) (th : Thread) (evs : List Event) : Nat → Sta
         else advance s t { th with prog := rest } (evs ++ [.skip]) fuel
       | .count => (s, { th with prog := rest, park := .gCount }, evs)
       | .keys => (s, { th with prog := rest, park := .gKeys }, evs)
-      | .expire => (s, { th with prog := rest, park := .gExpire }, evs)
+      | .expire => (s, { th with prog := rest, park := .gExpire (cutoffOf s 0) }, evs)
 
 def gotGuard (s : State) (t : Nat) (th : Thread) (slot : Nat) (evs : List Event) : State × Thread × List Event :=
   advance s t { th with got := insertSlot slot th.got } (evs ++ [.lock slot true]) (th.prog.length + th.got.length + th.pend.length + 3)
@@ -225,8 +226,8 @@ def stepThread (s : State) (t : Nat) (th : Thread) : State × Thread × List Eve
     | .prog => advance r.1 t th [] (fuelOf th)
     | .evict rest slot v k n => processCands r.1 th rest slot v k n []
     | .expired rest => processExpired r.1 t th rest []
-  | .gExpire =>
-    let r := step s (.expire 0 (List.range' (candBase t th.ncand) supplyLen))
+  | .gExpire cutoff =>
+    let r := step s (.expire cutoff (List.range' (candBase t th.ncand) supplyLen))
     match r.2 with
     | .list gs =>
       processExpired r.1 t { th with ncand := th.ncand + gs.length } gs [Event.exp (gs.map fun c => (c, keyOf r.1 c))]
@@ -249,7 +250,7 @@ def runnable (s : State) (t : Nat) (th : Thread) : Bool :=
 def statusChar (s : State) (t : Nat) (th : Thread) : String :=
   match th.park with
   | .start => "S"
-  | .gLookup .. | .gLookupPoll .. | .gCancel _ | .gCleanup _ | .gRelease .. | .gCount | .gKeys | .gExpire => "G"
+  | .gLookup .. | .gLookupPoll .. | .gCancel _ | .gCleanup _ | .gRelease .. | .gCount | .gKeys | .gExpire _ => "G"
   | .key .. | .keyPoll _ => "K"
   | .blocked _ => if runnable s t th then "W" else "B"
   | .done => "D"
